@@ -118,22 +118,39 @@ def parse(s):
 _STATE = re.compile(r"^State (\d+):", re.M)
 
 
+_STATE_LINE = re.compile(r"^State \d+:")
+
+
+def iter_dump_blocks(path):
+    """Stream the raw text of every state of a TLC -dump file (dumps of the larger configurations have millions of states)."""
+    buf = None
+    with open(path) as f:
+        for line in f:
+            if _STATE_LINE.match(line):
+                if buf is not None:
+                    yield "".join(buf)
+                buf = []
+            elif buf is not None:
+                buf.append(line)
+    if buf is not None:
+        yield "".join(buf)
+
+
+def parse_state_block(body, only=None):
+    st = {}
+    for chunk in re.split(r"^/\\ ", body, flags=re.M)[1:]:
+        name, _, val = chunk.partition(" = ")
+        name = name.strip()
+        if only is not None and name not in only:
+            continue
+        st[name] = parse(val)
+    return st
+
+
 def parse_dump(path, only=None):
     """Yield dicts var -> value for each state in a TLC -dump file. `only`: restrict to these variables."""
-    with open(path) as f:
-        txt = f.read()
-    parts = _STATE.split(txt)
-    # parts: [pre, num, body, num, body, ...]
-    for j in range(1, len(parts), 2):
-        body = parts[j + 1]
-        st = {}
-        for chunk in re.split(r"^/\\ ", body, flags=re.M)[1:]:
-            name, _, val = chunk.partition(" = ")
-            name = name.strip()
-            if only is not None and name not in only:
-                continue
-            st[name] = parse(val)
-        yield st
+    for body in iter_dump_blocks(path):
+        yield parse_state_block(body, only)
 
 
 _OPEN = {"<<", "[", "(", "{"}
